@@ -199,6 +199,9 @@ def run(db, chk):
     chk.rule("C20-T1", "for every operator sequence: accepted / rejected, reported direction, "
              "single-column storage, snapshot key lists, per-snapshot direction and pass-through "
              "equal the specification", min_instances=399)
+    chk.rule("C20-T4", "the user-written move assignment of the operator sequence transfers every data member "
+             "(so that direction, pass-through and snapshot keys survive the move), for every accepted "
+             "sequence of <= 3 operators assigned over two different targets", min_instances=50)
     chk.rule("C20-T2", "the constexpr flags of each operator equal the table documented in "
              "doc/source/guide_flow.md", min_instances=12)
     chk.rule("C20-T3", "declared vs actual effects of each operator implementation; sequence "
@@ -237,6 +240,50 @@ def run(db, chk):
                            "accepted" if want["accept"] else "rejected"), True,
                            function=SEQ + "::add_operator", construct="sequence",
                            sample=(n_sc % 97 == 1), extra={"unit": uname})
+    chk.count_scenarios(n_sc, True)
+
+    # ---- T4: move assignment ---------------------------------------------------------------------
+    import copy as _copy
+    for uname in units:
+        unit = db.units[uname]
+        ops = model.operator_classes(unit)
+        alpha = alphabet(ops)
+        asg = [f for f in unit.fns.values() if f.bn == SEQ + "::operator=" and f.body]
+        if not asg:
+            raise AnalysisBroken("flow_operator_sequence move assignment not instantiated in %s" % uname)
+        rec = [r for r in unit.records if r["bn"] == SEQ][0]
+        any_fn = unit.fns[next(iter(unit.fns))]
+
+        def build(it, seq):
+            so = it.new_obj(any_fn, rec)
+            for i, (label, op, snap) in enumerate(seq):
+                add = [f for f in unit.fns.values() if f.bn == SEQ + "::add_operator" and f.params
+                       and f.type(f.params[0]["t"]).startswith("std::shared_ptr<%s>" % op)]
+                o = Obj(op, {})
+                if snap is not None:
+                    o.fields = {"m_snapshot_name": "s%d" % i, "m_save_graph": snap[0], "m_save_elevation": snap[1]}
+                it.call_fn(add[0], so, [o])
+            return so
+        accepted = [seq for n in (1, 2, 3) for seq in itertools.product(alpha, repeat=n) if spec(ops, seq)["accept"]]
+        targets = [accepted[0], accepted[-1]]
+        for seq in accepted:
+            for tseq in targets:
+                n_sc += 1
+                it = Interp(SeqWorld())
+                try:
+                    src = build(it, seq)
+                    dst = build(it, tseq)
+                    before = {k: _copy.deepcopy(v) for k, v in src.fields.items()}
+                    it.call_fn(asg[0], dst, [src])
+                except ThrowEx as ex:
+                    chk.ob("C20-T4", "[%s] move assignment threw" % uname, False, where=asg[0].ploc,
+                           function=asg[0].bn, construct="move-assign", detail=ex.text[:80], extra={"unit": uname})
+                    continue
+                diff = [f["n"] for f in rec["fields"] if dst.fields.get(f["n"]) != before.get(f["n"])]
+                chk.ob("C20-T4", "[%s] %s := %s" % (uname, " > ".join(x[0] for x in tseq), " > ".join(x[0] for x in seq)),
+                       not diff, where=asg[0].ploc, function=asg[0].bn, construct="move-assign(%s)" % ",".join(diff),
+                       detail="" if not diff else "member(s) %s keep the target's old value instead of the source's" % diff,
+                       extra={"unit": uname}, sample=(n_sc % 37 == 1))
     chk.count_scenarios(n_sc, True)
 
     # ---- T2 ------------------------------------------------------------------------------------
